@@ -902,6 +902,8 @@ class PEval:
                     c0.fields["set"], c0.fields["v"] = False, UNKNOWN
                     return v_
         # tuple-variant / tuple-struct constructors used as functions (`.map(Some)`, `.map(Statement::Call)`)
+        if path in ("alloc::borrow::Cow::Owned", "alloc::borrow::Cow::Borrowed") and len(args) == 1:
+            return deref(args[0])         # Cow is transparent
         if path in ("core::option::Option::Some", "core::result::Result::Ok", "core::result::Result::Err") and len(args) == 1:
             return {"Some": some, "Ok": ok, "Err": err}[fname](deref(args[0]))
         if "::" in path and not path.startswith("<") and self.lib.fn(path) is None:
@@ -1134,6 +1136,8 @@ class PEval:
                     out.append(r.fields.get("0", UNKNOWN))
                     if len(out) > 20000:
                         raise OutOfFuel()
+            if fname == "repeat_with" and len(args) == 1:
+                return Struct("#Lazy", {"head": [], "gen": a0})      # unbounded: consumed on demand
             if fname == "repeat" and len(args) == 1 and path.endswith("repeat::repeat"):
                 return Struct("#Repeat", {"v": a0})       # unbounded: only `take(n)` / `zip` make it a sequence
             if fname == "once" and len(args) == 1:
@@ -1283,6 +1287,39 @@ class PEval:
         if isinstance(a0, list) and fname == "clear":
             del a0[:]
             return UNIT
+        if fname == "chain" and len(args) == 2 and isinstance(args[1], Struct) and args[1].adt == "#Lazy" and isinstance(a0, (Iter, list)):
+            head = a0.rest() if isinstance(a0, Iter) else list(a0)
+            return Struct("#Lazy", {"head": head + list(args[1].fields["head"]), "gen": args[1].fields["gen"]})
+        if isinstance(a0, Struct) and a0.adt == "#Lazy":
+            def pull():
+                if a0.fields["head"]:
+                    return a0.fields["head"].pop(0)
+                return self.apply(a0.fields["gen"], [], depth + 1)
+            if fname == "next" and len(args) == 1:
+                return some(pull())
+            if fname in ("find", "find_map", "position") and len(args) == 2:
+                for i_ in range(5000):
+                    x_ = pull()
+                    r_ = self.apply(args[1], [x_], depth + 1)
+                    if fname == "find_map":
+                        if not (isinstance(r_, Enum) and r_.adt == OPTION):
+                            return self.unknown("find_map closure result")
+                        if r_.variant == "Some":
+                            return r_
+                        continue
+                    t_ = self.truth(r_)
+                    if t_ is UNKNOWN:
+                        return UNKNOWN
+                    if t_:
+                        return some(x_ if fname == "find" else i_)
+                raise OutOfFuel()
+            if fname == "take" and len(args) == 2 and isinstance(args[1], int):
+                return Iter([pull() for _ in range(args[1])])
+            if fname in ("map", "filter", "inspect") and len(args) == 2:
+                src_, f_ = a0, args[1]
+                if fname == "map":
+                    return Struct("#Lazy", {"head": [], "gen": Native(lambda: self.apply(f_, [self.call_named("core::iter::traits::iterator::Iterator::next", "next", [src_], None, depth).fields.get("0")], depth + 1))})
+            return self.unknown("unbounded sequence .%s" % fname)
         if isinstance(a0, Struct) and a0.adt == "#Repeat":
             import copy as _copy
             if fname == "take" and len(args) == 2 and isinstance(args[1], int):
@@ -1697,10 +1734,13 @@ class PEval:
                     acc = r.fields.get("0", UNKNOWN)
                 # success: wrap like the closure does (Some / Ok / Continue)
                 return r.__class__(r.adt, r.variant, {"0": acc}) if a0 else self.unknown("try_fold on an empty sequence")
-            if fname in ("split_first", "split_last") and len(args) == 1:
+            if fname in ("split_first", "split_last", "split_first_mut", "split_last_mut") and len(args) == 1:
                 if not a0:
                     return NONE
-                return some((a0[0], a0[1:])) if fname == "split_first" else some((a0[-1], a0[:-1]))
+                def elem(i_):
+                    x_ = a0[i_]
+                    return x_ if isinstance(x_, (Struct, Enum, list, PyMap, PySet)) or not fname.endswith("_mut") else Ref(a0, i_ % len(a0))
+                return some((elem(0), a0[1:])) if fname.startswith("split_first") else some((elem(-1), a0[:-1]))
             if fname in ("concat", "join") and all(isinstance(x, str) for x in a0):
                 sep = args[1] if fname == "join" and len(args) == 2 and isinstance(args[1], str) else ""
                 return sep.join(a0)
@@ -2379,7 +2419,9 @@ class PEval:
                 if fname in ("remove", "swap_remove", "shift_remove"):
                     return some(d.pop(key)) if key in d else NONE
                 if fname == "entry":
-                    return Struct("#Entry", {"map": a0, "key": key})
+                    h_ = Struct("#Entry", {"map": a0, "key": key})
+                    adt_ = ret_t.split("<")[0] if ret_t.split("<")[0].endswith("::Entry") else "std::collections::hash::map::Entry"
+                    return Enum(adt_, "Occupied" if key in d else "Vacant", {"0": h_})
             if fname == "extend" and len(args) == 2:
                 seq = args[1].rest() if isinstance(args[1], Iter) else (args[1].items() if isinstance(args[1], PyMap) else args[1])
                 if isinstance(seq, list) and all(isinstance(x, tuple) and len(x) == 2 for x in seq):
@@ -2394,8 +2436,33 @@ class PEval:
                     if not r:
                         del d[k]
                 return UNIT
+        if isinstance(a0, Enum) and a0.adt.endswith("::Entry") and isinstance(a0.fields.get("0"), Struct) and a0.fields["0"].adt == "#Entry":
+            h_ = a0.fields["0"]
+            if fname == "and_modify" and len(args) == 2:
+                if h_.fields["key"] in h_.fields["map"].d:
+                    v_ = h_.fields["map"].d[h_.fields["key"]]
+                    self.apply(args[1], [v_ if isinstance(v_, (Struct, Enum, list, PyMap, PySet)) else Ref(h_.fields["map"].d, h_.fields["key"])], depth)
+                return a0
+            if fname == "key":
+                return h_.fields["key"]
+            a0 = h_         # or_insert & co. are defined on the entry
         if isinstance(a0, Struct) and a0.adt == "#Entry":
             m, key = a0.fields["map"], a0.fields["key"]
+            if fname == "insert" and len(args) == 2:
+                had, old_ = key in m.d, m.d.get(key)
+                m.d[key] = args[1]
+                if "Occupied" in path:
+                    return old_ if had else UNKNOWN
+                v_ = m.d[key]
+                return v_ if isinstance(v_, (Struct, Enum, list, PyMap, PySet)) else Ref(m.d, key)
+            if fname in ("get", "get_mut", "into_mut") and key in m.d:
+                v_ = m.d[key]
+                return v_ if isinstance(v_, (Struct, Enum, list, PyMap, PySet)) or fname == "get" else Ref(m.d, key)
+            if fname in ("key", "into_key"):
+                return key
+            if fname in ("remove", "remove_entry") and key in m.d:
+                v_ = m.d.pop(key)
+                return v_ if fname == "remove" else (key, v_)
             if fname in ("or_default", "or_insert", "or_insert_with", "or_insert_with_key"):
                 if key not in m.d:
                     if fname == "or_insert":
